@@ -68,7 +68,7 @@ def extract(repo):
     if not m:
         raise Shape("comma list: `if op != TokenOp::Comma { break; }` not found")
     rest = m.group(1)
-    facts["commaConsumes"] = bool(re.match(r"\s*let additional_comments = self\.consume\(\);", rest))
+    facts["commaConsumes"] = bool(re.match(r"\s*let (mut )?\w+ = self\.consume\(\);", rest))
     # 3. block statement loop
     blk = fn_body(src, "fn parse_block(", "parse_block")
     loop = block_after(blk, "loop {", "parse_block loop")
